@@ -229,7 +229,13 @@ class Gen:
                 return ["chain", prog, other[0]], cols, eng
             return ["chain", other[0], prog], cols, eng
         # join
-        other = self.tree(depth - 1, eng if not self.cfg.xfer_prob else None)
+        r = rng.random()
+        if r < 0.12:
+            other = state  # self-join (shared operand)
+        elif r < 0.24:
+            other = self.unary(state, rng.choice(["sel", "proj", "slice", "dedup"])) or state  # another view of the same operand
+        else:
+            other = self.tree(depth - 1, eng if not self.cfg.xfer_prob else None)
         oprog, ocols, oeng = other
         shared_nonkey = {c for c in cols & ocols if not is_key(c)}
         if shared_nonkey:
